@@ -75,6 +75,7 @@ def holder_facts(h):
         "cte": sorted(str(t) for t in h.cte),
         "drop": sorted(str(t) for t in h.drop),
         "rename": sorted([str(a), str(b)] for a, b in h.rename),
+        "rename_in_order": [[str(a), str(b)] for a, b in (getattr(h, "rename_in_order", None) or sorted(h.rename, key=str))],
         "col_edges": col_edges,
     }
 
